@@ -12,7 +12,8 @@ namespace JoinModel
 
 /-- The inputs the theorem speaks about. -/
 structure Supported (p : Input) (kind : Kind) : Prop where
-  notAsync : kind.isAsync = false
+  /-- the async try macros are not covered by this theorem (their `try_join!` returns as soon as one operand fails) -/
+  asyncNotTry : kind.isAsync = true → kind.isTry = false
   noJoiner : p.joiner = none
   noLazy : p.lazy = none
   transposeDefault : p.transpose ≠ some false
@@ -94,11 +95,16 @@ theorem mkCtx_ok {p : Input} {kind : Kind} (hs : Supported p kind) {c : Ctx} (h 
           have hne : p.branches ≠ [] := by
             intro he; simp [he] at h4
           refine ⟨?_, rfl, rfl, rfl, ?_, rfl, ?_, ?_⟩
-          · refine ⟨hs.notAsync, hs.noJoiner, ?_, ?_, by simp, rfl, by simp, by simp [namesOf], ?_, ?_, ?_, ?_⟩
-            · simp [hs.noLazy, hs.notAsync]
+          · have hna : kind.isTry = true → kind.isAsync = false := by
+              intro ht
+              cases ha : kind.isAsync with
+              | false => rfl
+              | true => rw [hs.asyncNotTry ha] at ht; cases ht
+            refine ⟨hs.asyncNotTry, hs.noJoiner, ?_, ?_, by simp, rfl, by simp, by simp [namesOf], ?_, ?_, ?_, ?_⟩
+            · simp [hs.noLazy, Kind.threads]
             · intro htry
               have htry' : kind.isTry = true := htry
-              simp only [hs.notAsync, htry']
+              simp only [hna htry', htry']
               cases ht : p.transpose with
               | none => rfl
               | some b =>
